@@ -59,7 +59,27 @@ def key_loop_var(M: Model, loop) -> str | None:
         return t.id
     if kind == "items" and isinstance(t, (ast.Tuple, ast.List)) and len(t.elts) == 2 and isinstance(t.elts[0], ast.Name):
         return t.elts[0].id
+    if kind == "items" and isinstance(t, ast.Name):
+        return f"{t.id}[0]"
+    if kind is None and isinstance(t, ast.Name):
+        # one small object per aliased module: the name is a field of it
+        from .c17_labels import object_items
+
+        info = object_items(M, it)
+        if info is not None:
+            return f"{t.id}.{info['module']}"
     return None
+
+
+def _is_var(e: ast.AST, var: str) -> bool:
+    """`e` is the variable (or, for items / objects, the expression) `var`"""
+    if isinstance(e, ast.Name):
+        return e.id == var
+    return isinstance(e, ast.expr) and not var.isidentifier() and norm(e, 300) == var
+
+
+def _mentions_var(e: ast.AST, var: str) -> bool:
+    return any(_is_var(x, var) for x in ast.walk(e))
 
 
 def partial_key_loop_var(M: Model, loop) -> str | None:
@@ -79,7 +99,7 @@ def membership_atoms(M: Model, f, var: str | None):
         if e is None:
             continue
         m = M.node_membership(e)
-        if m is not None and (var is None or (isinstance(m[0], ast.Name) and m[0].id == var)):
+        if m is not None and (var is None or _is_var(m[0], var)):
             out[a] = m[2]
     return out
 
@@ -284,7 +304,7 @@ def _analyse_raise(C, r: ast.Raise):
             continue
         f = M.guard(r, relative_to=L)
         ms = membership_atoms(M, f, k)
-        named = any(isinstance(x, ast.Name) and x.id == k for x in ast.walk(exc))
+        named = _mentions_var(exc, k)
         if not ms:
             if M.mentions_A(M.resolve(L.iter)):
                 return ("unknown", L, r, f"`{norm(r.exc, 60)}` is raised in a loop over the aliases under a condition that is not a membership test of the aliased module in the graph's nodes", named)
